@@ -57,6 +57,7 @@ func runC16(r *Run) {
 	if r.Want("foreign") {
 		c16Foreign(r)
 	}
+	c16SlowReader(r)
 	// dial on demand AGAIN after the dialled connection has failed: the envelope the proxy then accepts
 	// for the name reaches the newly dialled connection
 	if r.Want("redial") {
@@ -273,6 +274,7 @@ type pxWorld struct {
 	scen  string
 	name  string
 	icept pxIcept
+	byRef bool // envelopes are handed to the proxy by reference (item N instead of E)
 
 	ctx      context.Context
 	cancel   context.CancelFunc
@@ -470,8 +472,16 @@ func (w *pxWorld) send(sender string, env *Rpc) (site, dest string, ok bool) {
 		before[k] = true
 	}
 	w.mu.Unlock()
+	// by reference (as an in-process transport hands envelopes over): Go's distinction between a nil
+	// and an empty repeated field survives, which no protobuf-decoded envelope shows
+	item := "E"
+	var wire *Rpc = proto.Clone(env).(*Rpc)
+	if w.byRef || (env.GetHeader() != nil && env.Header.ProxyNext != nil && len(env.Header.ProxyNext) == 0) {
+		item, wire = "N", env
+		w.r.Count(w.scen + ".by_reference")
+	}
 	select {
-	case t.In <- proto.Clone(env).(*Rpc):
+	case t.In <- wire:
 	case <-time.After(hangTimeout):
 		w.fail("stall", "the proxy stopped reading from an attached peer", sender)
 		return "", "", false
@@ -484,7 +494,7 @@ func (w *pxWorld) send(sender string, env *Rpc) (site, dest string, ok bool) {
 		}
 		return false
 	}, hangTimeout)
-	w.items = append(w.items, "E"+hxs(sender)+"@"+pxEnvText(orig))
+	w.items = append(w.items, item+hxs(sender)+"@"+pxEnvText(orig))
 	if !found {
 		w.outs = append(w.outs, "nothing")
 		w.fail("stall", "an envelope read from an attached peer produced no forwarding decision", goroutineDump())
@@ -751,6 +761,9 @@ func pxGenEnv(rng *rand.Rand, id uint64, sender string, n pxNames) *Rpc {
 			if rng.Intn(3) > 0 {
 				h.ProxyNext[k-1] = pick(rng, append(append([]string{}, n.attached...), n.dialable...))
 			}
+		} else if rng.Intn(8) == 0 {
+			// a route that has been used up: empty, but not nil (send hands such an envelope over by reference)
+			h.ProxyNext = []string{}
 		}
 		if rng.Intn(3) == 0 {
 			for i, k := 0, 1+rng.Intn(2); i < k; i++ {
